@@ -84,7 +84,45 @@ Definition rsqrt (a : rx) : rx :=
   | _ => RSqrt a
   end.
 
-Definition rcbrt (a : rx) : rx := RCbrt a.
+(* pow(q, 1/3) of a positive rational folds to a rational when numerator and denominator are
+   perfect cubes (negative bases keep a factor (-1)**(1/3) and stay symbolic) *)
+Fixpoint icbrt_aux (fuel : nat) (n r bit : Z) : Z :=
+  match fuel with
+  | O => r
+  | S f =>
+      let r' := (r + bit)%Z in
+      icbrt_aux f n (if (r' * r' * r' <=? n)%Z then r' else r) (bit / 2)%Z
+  end.
+Definition icbrt (n : Z) : Z :=
+  let k := (Z.log2 n / 3 + 1)%Z in
+  icbrt_aux (Z.to_nat k + 1) n 0%Z (2 ^ k)%Z.
+
+Definition cbrt_exact (q : Q) : option Q :=
+  let n := Qnum q in
+  let d := Zpos (Qden q) in
+  if (0 <? n)%Z then
+    let a := icbrt n in
+    let b := icbrt d in
+    if ((a * a * a =? n) && (b * b * b =? d) && (0 <? b))%Z
+    then Some (Qred (a # Z.to_pos b)) else None
+  else None.
+
+Definition rcbrt (a : rx) : rx :=
+  match a with
+  | RQ q => match cbrt_exact q with Some t => RQ t | None => RCbrt a end
+  | _ => RCbrt a
+  end.
+
+Definition radd4 (a b c d : rx) : rx :=
+  match a, b, c, d with
+  | RQ p, RQ q, RQ r, RQ s => rq (p + q + r + s)
+  | _, _, _, _ => RAdd4 a b c d
+  end.
+Definition rmul3 (a b c : rx) : rx :=
+  match a, b, c with
+  | RQ p, RQ q, RQ r => rq (p * q * r)
+  | _, _, _ => RMul3 a b c
+  end.
 
 (* ------------------------------------------------------------------ sets of templates *)
 Definition set_mem (x : rx) (l : list rx) : bool := existsb (rx_eqb x) l.
@@ -178,10 +216,10 @@ Definition solve_poly_cubic (cs : list Q) : res (list rx) :=
 Definition euler_roots (ff aby4 : Q) (z1 z2 : rx) : list rx :=
   let p := rsqrt z1 in
   let q := rsqrt z2 in
-  let r := rdiv (rneg (rq ff)) (RMul3 (rq 8) p q) in
+  let r := rdiv (rneg (rq ff)) (rmul3 (rq 8) p q) in
   let na := rneg (rq aby4) in
-  set_of [RAdd4 p q r na; RAdd4 p (rneg q) (rneg r) na;
-          RAdd4 (rneg p) q (rneg r) na; RAdd4 (rneg p) (rneg q) r na].
+  set_of [radd4 p q r na; radd4 p (rneg q) (rneg r) na;
+          radd4 (rneg p) q (rneg r) na; radd4 (rneg p) (rneg q) r na].
 
 Definition pairs_of (s : list rx) : list (rx * rx) :=
   match s with
